@@ -24,7 +24,7 @@ def run(env, tier, seed, broken=None):
         if i % 3 == 0:
             src += '%s q = {%s};\n' % (VAR, ', '.join('%s: p(1 / %d)' % (k, 0 if j in (2, 5) else 1) for j, k in enumerate(ks)))
         cases.append({'id': 'o%d' % n, 'src': src, 'repeat': reps}); n += 1
-    ya1, ya2 = 'আয়', 'আয়'      # the same letters spelt with U+09DF and with U+09AF U+09BC: distinct keys, equal under NFC
+    ya1, ya2 = 'আ\u09df', 'আ\u09af\u09bc'      # the same letters spelt with U+09DF and with U+09AF U+09BC: distinct keys, equal under NFC
     for i in range(6 if tier == 'quick' else 40):
         src = '%s o = {%s: 1, %s: 2, k: 3};\n' % (VAR, ya1, ya2) + ''.join('%s %s(o);\n%s %s(o);\n' % (PRINT, VALUES, PRINT, KEYS) for _ in range(6)) + '%s o;\n' % PRINT
         cases.append({'id': 'k%d' % n, 'src': src, 'repeat': reps * 2}); n += 1
